@@ -90,7 +90,8 @@ def run(chk):
          "(default safe or a safe set without separators), optionally followed by %7E -> ~ replacements; nothing else")
     et = repo.func(P, "encode_token")
     tok = params(et)[0]
-    body = [s for s in et.body if not (isinstance(s, ast.Expr) and isinstance(s.value, ast.Constant)) and not isinstance(s, ast.Pass)]
+    from ..core import is_noop_stmt
+    body = [s for s in et.body if not is_noop_stmt(s)]
     ok = len(body) == 2 and isinstance(body[0], ast.For) and isinstance(body[1], ast.Return)
     if ok:
         f = body[0]
